@@ -164,6 +164,9 @@ pub enum Act {
     CloseRst,
     /// stop draining what the client writes for `0` ms (client writes block)
     Stall(u64),
+    /// network partition for `0` ms: nothing the peer sends is delivered and nothing the client
+    /// sends is read until it heals (TCP: delayed, not lost; the client can keep writing)
+    Partition(u64),
     /// stop sending anything (answers, keep-alives, scripted sends) from now on
     Silence,
     /// resume sending
@@ -251,6 +254,9 @@ pub struct Plan {
     pub sched_yield_pm: u32,
     pub disk_fail_writes: Vec<u64>,
     pub disk_fail_reads: Vec<u64>,
+    /// disk full: every piece write from this ordinal on fails
+    #[serde(default)]
+    pub disk_full_from: Option<u64>,
     /// piece files left in the directory by an earlier, interrupted run: (piece, kind) with kind
     /// 0 = complete and correct, 1 = truncated, 2 = garbage of the right length
     #[serde(default)]
